@@ -124,6 +124,9 @@ std::string Scenario::CommandLine(const Stmt& s) const {
 // drawn from the tape.
 static bool DyndepOnRule(const Stmt& s) { return !s.dyndep.empty() && Hash64(s.dyndep, (uint64_t)s.id * 31 + 7) % 2 == 0; }
 
+// A third of the statements with deps / depfile bind them on the build statement instead of the rule.
+static bool DepsOnBuild(const Stmt& s) { return s.deps_kind != 0 && !s.outs.empty() && Hash64(s.outs[0], (uint64_t)s.id * 17 + 11) % 3 == 0; }
+
 static void PrintStmt(const Scenario& sc, const Stmt& s, std::string* o) {
   char buf[64];
   if (!s.phony) {
@@ -133,7 +136,7 @@ static void PrintStmt(const Scenario& sc, const Stmt& s, std::string* o) {
     if (s.description) { snprintf(buf, sizeof buf, "  description = D%d $out\n", s.id); *o += buf; }
     if (s.restat) *o += "  restat = 1\n";
     if (s.generator) *o += "  generator = 1\n";
-    if (s.deps_kind == 1 || s.deps_kind == 2) {
+    if ((s.deps_kind == 1 || s.deps_kind == 2) && !DepsOnBuild(s)) {
       // half of the depfile bindings are spelled through $out, as build files usually do
       // (the unescaped expansion is what names the file, whatever characters $out has)
       std::string tail = s.outs.empty() ? std::string() : s.outs[0] + ".d";
@@ -142,12 +145,13 @@ static void PrintStmt(const Scenario& sc, const Stmt& s, std::string* o) {
       if (via_out) *o += "  depfile = " + NinjaValueEscape(s.depfile.substr(0, s.depfile.size() - tail.size())) + "$out.d\n";
       else *o += "  depfile = " + NinjaValueEscape(s.depfile) + "\n";
     }
-    if (s.deps_kind == 2) *o += "  deps = gcc\n";
-    if (s.deps_kind == 3) *o += "  deps = msvc\n";
+    if (s.deps_kind == 2 && !DepsOnBuild(s)) *o += "  deps = gcc\n";
+    if (s.deps_kind == 3 && !DepsOnBuild(s)) *o += "  deps = msvc\n";
     if (s.rsp) {
       *o += "  rspfile = " + NinjaValueEscape(s.rsp_path) + "\n";
       if (s.rsp_kind == 0) *o += "  rspfile_content = $in\n";
       else if (s.rsp_kind == 1) *o += "  rspfile_content = $in_newline\n";
+      else if (s.rsp_literal.empty()) *o += "  rspfile_content = $nothing_at_all\n";
       else *o += "  rspfile_content = " + NinjaValueEscape(s.rsp_literal) + "\n";
     }
     if (!s.pool.empty()) *o += "  pool = " + s.pool + "\n";
@@ -163,6 +167,11 @@ static void PrintStmt(const Scenario& sc, const Stmt& s, std::string* o) {
   if (!s.validations.empty()) { *o += " |@"; for (auto& p : s.validations) *o += " " + NinjaPathEscape(p); }
   *o += "\n";
   if (!s.dyndep.empty() && !DyndepOnRule(s)) *o += "  dyndep = " + NinjaValueEscape(s.dyndep) + "\n";
+  if (DepsOnBuild(s)) {
+    if (s.deps_kind == 1 || s.deps_kind == 2) *o += "  depfile = " + NinjaValueEscape(s.depfile) + "\n";
+    if (s.deps_kind == 2) *o += "  deps = gcc\n";
+    if (s.deps_kind == 3) *o += "  deps = msvc\n";
+  }
 }
 
 static bool InSub(const Scenario& sc, const Stmt& s) {
@@ -430,7 +439,12 @@ struct Gen {
       // shell syntax is the manifest author's business, so it gets a plain name)
       s.rsp_path = dir + "r" + std::to_string(i) + ".rsp";
       s.rsp_kind = (int)C(3);
-      if (s.rsp_kind == 2) s.rsp_literal = "lit" + std::to_string(C(100)) + " -x y";
+      if (s.rsp_kind == 2) {
+        uint32_t n = C(100);
+        // one in ten: the content is a variable that expands to nothing - the (empty)
+        // response file must exist all the same
+        s.rsp_literal = n % 10 == 9 ? std::string() : "lit" + std::to_string(n) + " -x y";
+      }
     }
     if (Has(F_POOLS) && !sc.pools.empty() && C(3) == 0) {
       auto it = sc.pools.begin(); std::advance(it, C((uint32_t)sc.pools.size())); s.pool = it->first;
